@@ -323,7 +323,8 @@ Definition serialize (fx : bool) (max : Z) (fmt : list Z) (args : list arg) (gar
   end.
 
 (* ------------------------------------------------------------------ qb_vsnprintf_deserialize(_n) *)
-(* kinds of the argument handed to snprintf: 1 int, 2 long, 3 long long, 4 double, 5 unsigned char,
+(* kinds of the argument handed to snprintf: 1 integer (int / long / long long: the number of argument bytes
+   tells which - libc sees the same register content for a long and a long long of equal size), 4 double, 5 unsigned char,
    6 string, 7 ptrdiff_t; the argument itself is the raw bytes taken from the record *)
 Definition oracle := list Z -> Z -> list Z -> Z -> Z * list Z.   (* fmt, kind, arg bytes, n -> (ret, written) *)
 
@@ -489,8 +490,8 @@ Fixpoint des_go (fx : bool) (snp : oracle) (rec : list Z) (blen n : Z)
           if LF_SIZEOF_INTMAX =? LF_SIZEOF_LLONG then des_go fx snp rec blen n f' (DDir m1 p1 tl true) st
           else des_go fx snp rec blen n f' (DDir m1 p1 true tll) st)
       | CInt =>
-        if tl then des_conv fx snp rec blen n mini fpos c 2 LF_SIZEOF_LONG LF_SIZEOF_LONG st next
-        else if tll then des_conv fx snp rec blen n mini fpos c 3 LF_SIZEOF_LLONG LF_SIZEOF_LLONG st next
+        if tl then des_conv fx snp rec blen n mini fpos c 1 LF_SIZEOF_LONG LF_SIZEOF_LONG st next
+        else if tll then des_conv fx snp rec blen n mini fpos c 1 LF_SIZEOF_LLONG LF_SIZEOF_LLONG st next
         else des_conv fx snp rec blen n mini fpos c 1 LF_SIZEOF_INT LF_SIZEOF_INT st next
       | CDbl => des_conv fx snp rec blen n mini fpos c 4 LF_SIZEOF_DOUBLE LF_SIZEOF_DOUBLE st next
       | CChr => des_conv fx snp rec blen n mini fpos c 5 LF_SIZEOF_UCHAR LF_SIZEOF_UCHAR st next
@@ -574,18 +575,17 @@ Record pdir := mkP {
 
 Inductive pmode := PLit | PDir (d : pdir).
 
-Definition kind_size (kind : Z) : Z :=
-  if kind =? 1 then LF_SIZEOF_INT else if kind =? 2 then LF_SIZEOF_LONG else if kind =? 3 then LF_SIZEOF_LLONG
-  else if kind =? 4 then LF_SIZEOF_DOUBLE else if kind =? 5 then LF_SIZEOF_UCHAR else LF_SIZEOF_PTRDIFF.
-
 Definition null_text : list Z := [40; 110; 117; 108; 108; 41].
 
-Definition arg_bytes (kind : Z) (a : arg) : list Z :=
-  match a with
-  | AStr s => cstr s
-  | ANull => null_text
-  | _ => le_bytes (Z.to_nat (kind_size kind)) (arg_raw a)
-  end.
+(* the next argument of the list (an exhausted list yields int 0, as the model's va_arg does) *)
+Definition next_arg (args : list arg) : arg * list arg :=
+  match args with [] => (AInt 0, []) | a :: t => (a, t) end.
+
+(* the bytes of a scalar argument of [size] bytes *)
+Definition scalar_bytes (size : Z) (a : arg) : list Z := le_bytes (Z.to_nat size) (arg_raw a).
+
+Definition int_size (d : pdir) : Z :=
+  if p_l d =? 0 then LF_SIZEOF_INT else if p_l d =? 1 then LF_SIZEOF_LONG else LF_SIZEOF_LLONG.
 
 Definition str_arg (d : pdir) (a : arg) : list Z :=
   match a with
@@ -607,11 +607,8 @@ Fixpoint printf_spec (render1 : list Z -> Z -> list Z -> list Z) (f : list Z) (m
       | _ => c :: printf_spec render1 f' PLit args
       end
     | PDir d =>
-      let conv := fun kind (bytes : arg -> list Z) =>
-        match args with
-        | a :: args' => render1 (p_acc d ++ [c]) kind (bytes a) ++ printf_spec render1 f' PLit args'
-        | [] => []
-        end in
+      let '(a, args') := next_arg args in
+      let conv := fun kind (bytes : list Z) => render1 (p_acc d ++ [c]) kind bytes ++ printf_spec render1 f' PLit args' in
       match classify c with
       | CFlag => printf_spec render1 f' (PDir (pd_add d [c])) args
       | CDot => printf_spec render1 f' (PDir (mkP (p_acc d ++ [c]) (p_l d) true (p_plen d))) args
@@ -619,18 +616,14 @@ Fixpoint printf_spec (render1 : list Z -> Z -> list Z -> list Z) (f : list Z) (m
         printf_spec render1 f'
                     (PDir (mkP (p_acc d ++ [c]) (p_l d) (p_prec d)
                                (if p_prec d then p_plen d * 10 + (c - 48) else p_plen d))) args
-      | CStar =>
-        match args with
-        | a :: args' => printf_spec render1 f' (PDir (pd_add d (dec (to_signed 32 (arg_raw a))))) args'
-        | [] => []
-        end
+      | CStar => printf_spec render1 f' (PDir (pd_add d (dec (to_signed (8 * LF_SIZEOF_INT) (arg_raw a))))) args'
       | CEll => printf_spec render1 f' (PDir (mkP (p_acc d ++ [c]) (p_l d + 1) (p_prec d) (p_plen d))) args
       | CZee | CTee | CJay => printf_spec render1 f' (PDir (mkP (p_acc d ++ [c]) 2 (p_prec d) (p_plen d))) args
-      | CInt => let kind := if p_l d =? 0 then 1 else if p_l d =? 1 then 2 else 3 in conv kind (arg_bytes kind)
-      | CDbl => conv 4 (arg_bytes 4)
-      | CChr => conv 5 (arg_bytes 5)
-      | CPtr => conv 7 (arg_bytes 7)
-      | CStr => conv 6 (str_arg d)
+      | CInt => conv 1 (scalar_bytes (int_size d) a)
+      | CDbl => conv 4 (scalar_bytes LF_SIZEOF_DOUBLE a)
+      | CChr => conv 5 (scalar_bytes LF_SIZEOF_UCHAR a)
+      | CPtr => conv 7 (scalar_bytes LF_SIZEOF_PTRDIFF a)
+      | CStr => conv 6 (str_arg d a)
       | CPct => 37 :: printf_spec render1 f' PLit args
       | CNul | COther => []
       end
